@@ -12,9 +12,10 @@ from hypothesis import strategies as st
 from vlib import common, gen, lib
 
 ID = "C20"
-BUDGET = {"quick": 800, "thorough": 32000}
+BUDGET = {"quick": 400, "thorough": 32000}
 LEVEL = "exploration"
-TECHNIQUE = "property-based fault injection (Hypothesis): one field of an otherwise valid argument set is corrupted by an operator from a catalogue; validity decided by an explicit acceptance model"
+FUZZ = {"quick": (1, 40), "thorough": (8, 800)}  # (processes, libFuzzer runs each): coverage-guided campaigns over the same generator/oracle
+TECHNIQUE = "property-based fault injection (Hypothesis) plus coverage-guided fuzzing (atheris/libFuzzer driving the same generator through fuzz_one_input): one field of an otherwise valid argument set is corrupted by an operator from a catalogue or receives an arbitrary shape; validity decided by an explicit acceptance model"
 LEVEL_TEXT = (
     "Generated (entry point, field, corruption operator, factorisation, sizes): prior constructors incl. the diffuse / exponential / "
     "Ornstein-Uhlenbeck / Matern variants, transition(), constraint constructors, error estimators, both losses, the Taylor-coefficient "
@@ -63,8 +64,10 @@ def _case(draw):
     entry = draw(st.sampled_from(sorted(ENTRIES)))
     op = draw(st.sampled_from(ENTRIES[entry]))
     fact = draw(st.sampled_from(gen.FACTS))
-    n = draw(st.integers(2, 4))
-    d = draw(st.integers(2, 3))
+    # sampled_from instead of integers(lo, hi): the byte-string decoder used by the coverage-guided driver (vlib/fuzz.py) draws
+    # integers from [0, 2^bits) and rejects values below lo, which never terminates for ranges such as [2, 3]
+    n = draw(st.sampled_from([2, 3, 4]))
+    d = draw(st.sampled_from([2, 3]))
     case = dict(entry=entry, op=op, fact=fact, n=n, d=d, which=draw(st.integers(0, 3)), variant=draw(st.integers(0, 2)))
     if op.startswith("generic_shape"):
         # an arbitrary shape (rank 0..3, axes from the sizes that occur in the problem and their neighbours): whether it is valid
